@@ -21,8 +21,10 @@
      has_tcl_paren         the token sequence contains a variable token of the form $name(...)
 
    The simulation is proved for ALL texts, terminated or not (no `terminated` hypothesis was needed), but only
-   for texts without a $name(...) variable token: with one the property is FALSE of the code (C16_single_refuted,
-   confirmed by execution - known finding C16-sqlite-variable-token). *)
+   for texts without a $name(...) variable token: with one, core/sql.py's is_readonly_sql still mis-delimits the
+   text (C16_single_refuted - true of /repo HEAD).  Since d0eb2f8 the sqlite3 handler refuses such arguments
+   (_TCL_VARIABLE guard), so the handler-level theorems (C16_single_sqlite3, C16_args) need no such hypothesis:
+   C16_guard_sound proves that the guard over-approximates SQLite's token. *)
 From DippyV Require Import Base.Str Base.Verdict Gen.Tables Model.Sql Model.SqlSpec
   Proofs.SqlP Proofs.SqlSpecP Proofs.C16P.
 
@@ -54,12 +56,25 @@ Theorem C16_single_partial : forall ero ewr sql,
 Proof. exact single_statement. Qed.
 Print Assumptions C16_single_partial.
 
-(* GENUINE DEFECT: SQLite reads $a(') as one variable token, the stripper reads the quote as the start of a
-   string that hides "; DELETE FROM t;".  Executed: the rows are deleted. *)
+(* Still true of core/sql.py at /repo HEAD (the other SQL handlers use it unguarded; for SQLite the sqlite3
+   handler's guard catches it - C16_single_sqlite3): SQLite reads $a(') as one variable token, the stripper reads
+   the quote as the start of a string that hides "; DELETE FROM t;". *)
 Theorem C16_single_refuted : exists sql,
   plain_ws sql /\ is_readonly_sql [] SQLITE_WRITE sql = Some true /\ live_statements (sql_lex sql) = 2%nat.
 Proof. exact single_refuted_witness. Qed.
 Print Assumptions C16_single_refuted.
+
+(* the guard of the repaired handler: no match of _TCL_VARIABLE anywhere => no $name(...) token for SQLite *)
+Theorem C16_guard_sound : forall s, tcl_search s = false -> has_tcl_paren (sql_lex s) = false.
+Proof. exact guard_no_paren. Qed.
+Print Assumptions C16_guard_sound.
+
+(* (1)+(2) for what the sqlite3 handler takes for read-only (_classify_sql): no hypothesis on variable tokens *)
+Theorem C16_single_sqlite3 : forall part, classify_sql part = Some true ->
+  sqlite3_sql part = Some true /\ has_tcl_paren (sql_lex part) = false /\
+  (plain_ws part -> (live_statements (sql_lex part) <= 1)%nat /\ leading (fun k => ro_word [] (py_upper k)) (sql_lex part)).
+Proof. exact classify_sql_readonly. Qed.
+Print Assumptions C16_single_sqlite3.
 
 (* harmless: a second "statement" made of a character that only Python takes for white space (here NBSP, an
    identifier character for SQLite) - SQLite reports a syntax error for it and nothing is executed *)
@@ -134,24 +149,37 @@ Theorem C16_multi_shape : forall stripped, multi_of_stripped stripped = false ->
 Proof. exact multi_false_shape. Qed.
 Print Assumptions C16_multi_shape.
 
-(* ---------------------------------------------------------------- (4) the sqlite3 handler
-   Full statement (false of the code): sqlite3_classify tokens = Allow -> every SQL argument is read-only. *)
-Theorem C16_args_partial : forall tokens,
-  sqlite3_shortcut tokens = None -> sqlite3_classify tokens = Allow ->
-  sqlite3_parts (tl tokens) false <> [] /\
-  forall part, In part (sqlite3_parts (tl tokens) false) ->
-    sqlite3_sql part = Some true /\
-    (plain_ws part -> has_tcl_paren (sql_lex part) = false ->
-       (live_statements (sql_lex part) <= 1)%nat /\ leading (fun k => ro_word [] (py_upper k)) (sql_lex part)).
+(* ---------------------------------------------------------------- (4) the sqlite3 handler (as repaired by d0eb2f8)
+   Every way the handler allows: -init nowhere among the tokens, and
+     - -help / -version / --help in option position and no -cmd (the shell exits there before any SQL runs), or
+     - -readonly / -safe in option position and no argument that is a dot-command, calls a writing shell function
+       or is a VACUUM, or
+     - there are SQL arguments and EACH of them separately is read-only, has no $name(...) token, and satisfies
+       (1) and (2).
+   Full statement without the second case's -safe half is FALSE of /repo HEAD: C16_args_refuted (pinned by
+   tests/cli/test_sqlite3.py - known finding C16-shortcut-safe). *)
+Theorem C16_args : forall tokens,
+  sqlite3_classify tokens = Allow ->
+  let '(parts, help_flag, readonly_flag, cmd_seen) := sqlite3_scan (tl tokens) false in
+  mem_str $"-init" tokens = false /\
+  ((help_flag = true /\ cmd_seen = false) \/
+   (readonly_flag = true /\ forall part, In part parts -> acts_anyway part = false) \/
+   (parts <> [] /\ forall part, In part parts ->
+      sqlite3_sql part = Some true /\ has_tcl_paren (sql_lex part) = false /\
+      (plain_ws part -> (live_statements (sql_lex part) <= 1)%nat /\ leading (fun k => ro_word [] (py_upper k)) (sql_lex part)))).
 Proof. exact sqlite3_allow_each. Qed.
-Print Assumptions C16_args_partial.
+Print Assumptions C16_args.
 
-(* -safe (like -readonly, -help, -version anywhere among the tokens) allows without looking at the SQL; -safe does
-   not make the database read-only: executed with the real shell, the rows are deleted *)
+(* -safe in option position still allows a write: -safe does not make the database read-only (executed with the
+   real shell: the rows are deleted) *)
 Theorem C16_args_refuted : exists tokens part,
   sqlite3_classify tokens = Allow /\ In part (sqlite3_parts (tl tokens) false) /\ sqlite3_sql part = Some false.
 Proof. exact args_refuted_witness. Qed.
 Print Assumptions C16_args_refuted.
+
+Theorem C16_args_init : forall tokens, mem_str $"-init" tokens = true -> sqlite3_classify tokens = Ask.
+Proof. exact sqlite3_init_ask. Qed.
+Print Assumptions C16_args_init.
 
 (* all / any *)
 Theorem C16_args_combine : forall results,
@@ -161,9 +189,9 @@ Proof. exact (fun l => conj (combine_results_true l) (combine_results_false l)).
 Print Assumptions C16_args_combine.
 
 Theorem C16_args_one_write : forall tokens part,
-  sqlite3_shortcut tokens = None -> In part (sqlite3_parts (tl tokens) false) -> sqlite3_sql part <> Some true ->
+  sqlite3_shortcut tokens = None -> In part (sqlite3_parts (tl tokens) false) -> classify_sql part <> Some true ->
   sqlite3_classify tokens = Ask.
-Proof. exact sqlite3_one_write. Qed.
+Proof. exact sqlite3_one_unknown. Qed.
 Print Assumptions C16_args_one_write.
 
 (* without options every token after the database name is an SQL argument *)
@@ -185,8 +213,16 @@ Example C16_example_unterminated :        (* the simulation covers unterminated 
   strip_quoted sql = $"SELECT  'b ; DELETE FROM t /* x".
 Proof. vm_compute. repeat split. Qed.
 
-Example C16_example_args :                 (* the repaired argument loop: one write argument -> ask *)
+Example C16_example_args :                 (* the repaired handler on the former witnesses *)
   sqlite3_classify [$"sqlite3"; $"main.db"; $"SELECT 1"; $"DELETE FROM t"] = Ask /\
   sqlite3_classify [$"sqlite3"; $"-header"; $"main.db"; $"SELECT 1"; $"select 2;"] = Allow /\
-  sqlite3_classify [$"sqlite3"; $"main.db"; $"WITH c AS (SELECT 1) DELETE FROM t"] = Ask.
+  sqlite3_classify [$"sqlite3"; $"main.db"; $"WITH c AS (SELECT 1) DELETE FROM t"] = Ask /\
+  sqlite3_classify [$"sqlite3"; $"main.db"; $"SELECT $a('), 1; DELETE FROM t; --')"] = Ask /\
+  sqlite3_classify [$"sqlite3"; $"main.db"; $"-cmd"; $"DELETE FROM t"; $"-version"] = Ask /\
+  sqlite3_classify [$"sqlite3"; $"-cmd"; $"-readonly"; $"main.db"; $"DELETE FROM t"] = Ask /\
+  sqlite3_classify [$"sqlite3"; $"-readonly"; $"main.db"; $".shell touch pwned"] = Ask /\
+  sqlite3_classify [$"sqlite3"; $"-readonly"; $"main.db"; $"VACUUM INTO 'copy.db'"] = Ask /\
+  sqlite3_classify [$"sqlite3"; $"main.db"; $"SELECT WriteFile('aux.db', 'x')"] = Ask /\
+  sqlite3_classify [$"sqlite3"; $"-readonly"; $"main.db"; $"DROP TABLE users"] = Allow /\
+  sqlite3_classify [$"sqlite3"; $"main.db"; $"DELETE FROM t"; $"-version"] = Allow.
 Proof. vm_compute. repeat split. Qed.
